@@ -399,13 +399,28 @@ def run(ctx):
             if not ob5.need(len(loops) == 1, "%s emitter: loop over init_sequence not found" % nm):
                 continue
             lp = loops[0]
-            inner = [n for n in lp.body if isinstance(n, ast.For) and isinstance(n.iter, ast.Name)]
-            mv = inner[0].iter.id if inner else "invert_masks"
-            reinit = [s for s in lp.body if isinstance(s, ast.Assign) and any(isinstance(t, ast.Name) and t.id == mv for t in s.targets)]
-            appended = [ast.literal_eval(c.args[0]) for c in ast.walk(lp) if isinstance(c, ast.Call) and isinstance(c.func, ast.Attribute) and c.func.attr == "append"
+            # the list of (address, bank) XOR masks a command is sent with: a local rebuilt in the loop body, or the result of a helper that builds
+            # a fresh list on every call (either way: a new list per command)
+            inner = [n for n in lp.body if isinstance(n, ast.For) and isinstance(n.iter, (ast.Name, ast.Call))]
+            scope = lp
+            body_ = lp.body
+            mv = "invert_masks"
+            if inner and isinstance(inner[0].iter, ast.Name):
+                mv = inner[0].iter.id
+            elif inner and isinstance(inner[0].iter, ast.Call) and isinstance(inner[0].iter.func, ast.Name) and inner[0].iter.func.id in m.functions:
+                hf = m.functions[inner[0].iter.func.id]
+                rets = [n for n in ast.walk(hf) if isinstance(n, ast.Return) and isinstance(n.value, ast.Name)]
+                if rets:
+                    mv = rets[0].value.id
+                    scope = hf
+                    body_ = hf.body
+            reinit = [s for s in body_ if isinstance(s, ast.Assign) and any(isinstance(t, ast.Name) and t.id == mv for t in s.targets) and isinstance(s.value, (ast.List, ast.Tuple))]
+            appended = [ast.literal_eval(c.args[0]) for c in ast.walk(scope) if isinstance(c, ast.Call) and isinstance(c.func, ast.Attribute) and c.func.attr == "append"
                         and isinstance(c.func.value, ast.Name) and c.func.value.id == mv and c.args and isinstance(c.args[0], ast.Tuple)]
-            exempt = [ast.unparse(c) for c in ast.walk(lp) if isinstance(c, ast.Compare) and isinstance(c.left, ast.Name) and c.left.id == "ba"]
+            exempt = [ast.unparse(c) for c in ast.walk(scope) if isinstance(c, ast.Compare) and isinstance(c.left, ast.Name) and c.left.id == "ba"]
             init_val = ast.literal_eval(reinit[0].value) if reinit else None
+            if init_val is not None:
+                init_val = [tuple(x) for x in init_val]
             shapes[nm] = {"reinit_per_command": bool(reinit), "init": init_val, "appended": appended, "exemption": exempt}
             ob5.instance("%s emitter loop" % nm, shapes[nm])
             if not reinit:
